@@ -41,7 +41,7 @@ type Gen struct {
 	count  int
 }
 
-var collNamePool = []string{"a", "ab", "coll", "c:", "d:", "i:x", "x y", "naïve", "c.d", "a:b", "日本", "t"}
+var collNamePool = []string{"a", "ab", "coll", "c:", "d:", "i:x", "x y", "naïve", "c.d", "a:b", "日本", "t", "", "coll:", "c:a", "\x00", "a\xff", "A"}
 var fieldPool = []string{"a", "ab", "b", "x", "xy", "n", "s", "arr"}
 
 func i64(x int64) interface{}   { return x }
@@ -308,6 +308,9 @@ func (g *Gen) doc(withID bool) map[string]interface{} {
 		}
 		if f == "arr" && g.R.Chance(0.7) {
 			k := g.R.Intn(4)
+			if g.R.Chance(0.12) {
+				k = g.R.Range(9, 14) // long arrays: anything that reorders or chunks them shows here
+			}
 			a := make([]interface{}, k)
 			for i := range a {
 				a[i] = g.value()
@@ -766,10 +769,6 @@ func (g *Gen) make(k string, m *model.DB) Op {
 		return Op{K: k, Coll: target, File: g.files[len(g.files)-1-g.R.Intn(min(2, len(g.files)))]}
 	case "CreateCollectionByQuery":
 		target := g.pickColl(m, g.R.Chance(0.2))
-		if target == coll && mc == nil {
-			// creating a collection from itself: outside what the statement defines
-			return Op{K: "HasCollection", Coll: coll}
-		}
 		return Op{K: k, Coll: target, Q: g.query(coll, mc, 0.7, 0.3, 0)}
 	case "Invalid":
 		return g.invalid(m, coll, mc)
@@ -827,6 +826,11 @@ func (g *Gen) invalid(m *model.DB, coll string, mc *model.Coll) Op {
 			return op
 		}
 	case 1: // duplicate within the batch
+		if g.R.Chance(0.25) {
+			// the same document object twice (it has no _id: the second occurrence carries the id generated for the first)
+			d := g.doc(false)
+			return Op{K: "Insert", Coll: coll, Docs: []val.V{val.Wrap(g.doc(g.R.Bool())), val.Wrap(d), val.Wrap(d)}, Note: "sameobj:1:2"}
+		}
 		n := g.R.Range(2, 4)
 		op := Op{K: "Insert", Coll: coll}
 		id := g.newID()
@@ -872,6 +876,24 @@ func (g *Gen) invalid(m *model.DB, coll string, mc *model.Coll) Op {
 		upd := map[string]val.V{"_id": val.Wrap(g.newID()), "tag": val.Wrap(g.nextTag())}
 		if mc != nil && len(mc.Docs) > 1 && g.R.Chance(0.4) {
 			upd["_id"] = val.Wrap(g.pickID(mc, 1)) // the id of another live document
+		}
+		target := g.pickID(mc, 0.95)
+		if g.R.Chance(0.3) {
+			// another spelling of the very same UUID (accepted by the UUID parser): the
+			// stored _id would no longer be the key the document is reachable under
+			alt := target
+			switch g.R.Intn(4) {
+			case 0:
+				alt = strings.ToUpper(target)
+			case 1:
+				alt = "{" + target + "}"
+			case 2:
+				alt = "urn:uuid:" + target
+			default:
+				alt = strings.ReplaceAll(target, "-", "")
+			}
+			upd["_id"] = val.Wrap(alt)
+			return Op{K: "UpdateById", Coll: coll, ID: target, Upd: upd, UpdStyle: updStyles[g.R.Intn(len(updStyles))]}
 		}
 		if g.R.Chance(0.6) {
 			return Op{K: "UpdateById", Coll: coll, ID: g.pickID(mc, 0.95), Upd: upd, UpdStyle: updStyles[g.R.Intn(len(updStyles))]}
